@@ -173,6 +173,8 @@ private:
 	bool ha_endpoint_clean(const HRec &r, const Attempt &a, size_t ei, std::string &why, uint64_t upto = 0);
 	uint64_t ha_sent_seq(const HRec &r, size_t ei, uint64_t after, uint64_t *id_out = nullptr);
 	std::vector<std::pair<uint64_t, uint64_t>> ha_sent_all(const HRec &r, size_t ei, uint64_t after);
+	int64_t ha_dispatch_ms(const HRec &r, size_t ei, uint64_t after);
+	bool ha_receive_timeout_possible(const HRec &r, const Attempt &a);
 	ref::ConfVals ha_expected_conf();
 };
 
